@@ -1,4 +1,5 @@
 import GeomV.C12.LemmasNN
+import GeomV.C12.LemmasKNN
 /-
 C12 — property theorems (nearest neighbour).  They hold for every visiting order that is a
 permutation of the entry indices (`OrderOK`; `sort.Sort` is one, whatever it does with ties), on
@@ -100,5 +101,248 @@ theorem C12_empty [Bounded O] {order : List Rat → List Nat} (hO : OrderOK orde
   subst this
   simp only [nearestNeighbor, e, bind, Except.bind]
   rfl
+
+/-- **C12_insertNearest_topk** — `insertNearest` keeps the k smallest of what it has seen: on
+the padded arrays it is a stable sorted insertion truncated to `k`, and that preserves the
+invariant "sorted, at most k, nothing left out is nearer than anything kept, full if anything was
+left out". -/
+theorem C12_insertNearest_topk (cd : O → Rat) (k : Nat) (seen : List O) (top : List (Rat × O))
+    (h : TopK cd k seen top) (o : O) :
+    insertNearest k (pad k top) (cd o) o = pad k ((insSorted (cd o, o) top).take k) ∧
+      TopK cd k (o :: seen) ((insSorted (cd o, o) top).take k) :=
+  ⟨insertNearest_pad top k h.len (cd o) o, h.step o⟩
+
+theorem msub_perm [DecidableEq O] : ∀ (l s rest : List O), (l ++ rest).Perm s → (msub s l).Perm rest
+  | [], s, rest, h => by simpa [msub] using h.symm
+  | a :: l, s, rest, h => by
+    have h1 : (l ++ rest).Perm (s.erase a) := by
+      have := h.erase a
+      simpa using this
+    have := msub_perm l (s.erase a) rest h1
+    simpa [msub] using this
+
+theorem sortedBy_of_pairwise (f : O → Rat) : ∀ (l : List O), l.Pairwise (fun a b => f a ≤ f b) →
+    sortedBy f l = true
+  | [], _ => rfl
+  | [_], _ => rfl
+  | a :: b :: r, h => by
+    have h' := List.pairwise_cons.mp h
+    simp only [sortedBy, Bool.and_eq_true, decide_eq_true_eq]
+    exact ⟨h'.1 b List.mem_cons_self, sortedBy_of_pairwise f (b :: r) h'.2⟩
+
+/-- from the invariant to the specification of the answer -/
+theorem specKNN_of_topk [Bounded O] [DecidableEq O] (px py : Rat) (k : Nat) (s : List O)
+    (top : List (Rat × O)) (h : TopK (cdist px py) k s top) :
+    specKNN s k px py ((pad k top).map fun c => c.map (·.2)) = true := by
+  obtain ⟨hlen, hdist, hsorted, ⟨rest, r1, r2, r3⟩⟩ := h
+  have hres : ((pad k top).map fun c => c.map (·.2)) =
+      (top.map (·.2)).map some ++ List.replicate (k - top.length) none := by
+    simp [pad, List.map_append, List.map_map, Function.comp_def]
+  have hobjs : (((pad k top).map fun c => c.map (·.2)).filterMap id) = top.map (·.2) := by
+    rw [hres, List.filterMap_append]
+    simp [List.filterMap_map, Function.comp_def, List.filterMap_replicate_of_none]
+  have hod : ∀ o : O, odist px py o = cdist px py o := by
+    intro o; unfold odist cdist; rw [minDist_eq_boxDist2]
+  have hms := msub_perm (top.map (·.2)) s rest r1
+  have hlen_s : top.length + rest.length = s.length := by
+    have := r1.length_eq; simpa using this
+  unfold specKNN
+  simp only [hobjs, Bool.and_eq_true, decide_eq_true_eq, List.all_eq_true, List.length_map]
+  refine ⟨⟨⟨⟨⟨?_, ?_⟩, ?_⟩, ?_⟩, ?_⟩, ?_⟩
+  · simp [pad]; omega
+  · rw [hres]
+  · by_cases hr : rest = []
+    · subst hr; simp at hlen_s; omega
+    · have := r3 hr; have : 0 < rest.length := List.length_pos_iff.mpr hr; omega
+  · rw [hms.length_eq]; omega
+  · apply sortedBy_of_pairwise
+    rw [List.pairwise_map]
+    refine hsorted.imp_of_mem ?_
+    intro a b ha hb hab
+    rw [hod, hod, ← hdist a ha, ← hdist b hb]; exact hab
+  · intro o ho o' ho'
+    obtain ⟨p, hp, rfl⟩ := List.mem_map.mp ho
+    have := r2 o' (hms.mem_iff.mp ho') p hp
+    rw [hod, hod, ← hdist p hp]; exact this
+
+/-- **C12_knn** (k ≠ 1: the case the repair changed; `C12_knn_one` is k = 1) — on a well-formed
+tree `NearestNeighbors(k, p)` does not panic and returns `min(k, Size)` stored objects in
+non-decreasing order of box distance whose distances are the k smallest among all stored objects,
+remaining slots nil (`Spec.specKNN`). -/
+theorem C12_knn [Bounded O] [DecidableEq O] {order : List Rat → List Nat} (hO : OrderOK order)
+    (t : C11.Tree O) (hwf : t.WF = true) (k : Nat) (hk : k ≠ 1) (px py : Rat) :
+    ∃ res, nearestNeighbors order t k px py = .ok res ∧ specKNN t.abs k px py res = true := by
+  have hw : wfNode t.maxC t.height t.root = true := by
+    have := hwf; simp [C11.Tree.WF] at this; exact this.1
+  obtain ⟨top', e, tk⟩ := knnNode_spec hO k hk px py t.root t.height hw [] [] (TopK.nil _ k)
+  have hpad : pad k ([] : List (Rat × O)) = List.replicate k none := by simp [pad]
+  rw [hpad] at e
+  refine ⟨(pad k top').map fun c => c.map (·.2), ?_, ?_⟩
+  · simp only [nearestNeighbors, e, bind, Except.bind, pure, Except.pure]
+  · exact specKNN_of_topk px py k t.abs top' (by simpa [C11.Tree.abs] using tk)
+
+/-! ### k = 1: `nearestNeighbors(1, ·)` is `nearestNeighbor` on a one-slot array -/
+
+theorem insertNearest_one (st : Option (Rat × O)) (d : Rat) (o : O) :
+    insertNearest 1 [st] d o = [if better d st then some (d, o) else st] := by
+  cases st with
+  | none => simp [insertNearest, better]
+  | some p =>
+    obtain ⟨x, o'⟩ := p
+    by_cases h : d < x
+    · have : ¬ x ≤ d := not_le.mpr h
+      simp [insertNearest, better, h, this]
+    · have : x ≤ d := not_lt.mp h
+      simp [insertNearest, better, h, this]
+
+theorem foldlM_one {α : Type} (f1 : Option (Rat × O) → α → Except Fault (Option (Rat × O)))
+    (f2 : List (Option (Rat × O)) → α → Except Fault (List (Option (Rat × O)))) :
+    ∀ (l : List α), (∀ a ∈ l, ∀ st st', f1 st a = .ok st' → f2 [st] a = .ok [st']) →
+      ∀ st st', l.foldlM f1 st = .ok st' → l.foldlM f2 [st] = .ok [st']
+  | [], _, st, st', h => by
+    simp only [List.foldlM_nil, pure, Except.pure] at h ⊢; cases h; rfl
+  | a :: l, hl, st, st', h => by
+    simp only [List.foldlM_cons, bind, Except.bind] at h ⊢
+    cases h1 : f1 st a with
+    | error e => rw [h1] at h; cases h
+    | ok s1 =>
+      rw [h1] at h
+      rw [hl a List.mem_cons_self st s1 h1]
+      exact foldlM_one f1 f2 l (fun x hx => hl x (List.mem_cons_of_mem _ hx)) s1 st' h
+
+theorem knn1_eq [Bounded O] (order : List Rat → List Nat) (px py : Rat) {maxC : Nat} :
+    ∀ (n : Node O) (h : Nat), wfNode maxC h n = true → ∀ st st',
+      nnNode order px py n st = .ok st' → knnNode order 1 px py n [st] = .ok [st'] := by
+  intro n
+  induction n using Node.induct with
+  | h l v es ih =>
+    intro h hw st st' hnn
+    have hw' := (wfNode_mk ..).mp hw
+    obtain ⟨hv', hl, h1, hlen, hes⟩ := hw'
+    rw [nnNode_mk] at hnn
+    rw [knnNode_mk]
+    cases l with
+    | true =>
+      have hh : h = 1 := hl.mp rfl
+      subst hh
+      simp only [if_true] at hnn ⊢
+      refine foldlM_one _ _ es ?_ st st' hnn
+      intro e he s s' hs
+      obtain ⟨o, rfl⟩ := wfEntry_of_leaf (hes e he)
+      simp only [nnLeafStep, pure, Except.pure] at hs
+      cases hs
+      simp only [knnLeafStep, pure, Except.pure, insertNearest_one]
+    | false =>
+      simp only [Bool.false_eq_true, if_false, beq_self_eq_true] at hnn ⊢
+      refine foldlM_one _ _ _ ?_ st st' hnn
+      intro i hi s s' hs
+      cases hc : es[i]? with
+      | none => rw [hc] at hs; cases hs
+      | some e =>
+        cases e with
+        | obj b o => rw [hc] at hs; cases hs
+        | child b c =>
+          rw [hc] at hs
+          simp only at hs ⊢
+          have hwc := (hes _ (List.mem_of_getElem? hc)).2.1
+          exact ih b c (List.mem_of_getElem? hc) (h - 1) hwc s s' hs
+
+/-- **C12_knn_one** — `NearestNeighbors(1, p)` (where MINMAXDIST pruning is still applied) returns
+the nearest stored object in its single slot (nil on an empty tree). -/
+theorem C12_knn_one [Bounded O] [DecidableEq O] {order : List Rat → List Nat} (hO : OrderOK order)
+    (t : C11.Tree O) (hwf : t.WF = true) (px py : Rat)
+    (hv : ∀ o : O, (Bounded.bounds o).valid = true) :
+    ∃ res, nearestNeighbors order t 1 px py = .ok res ∧ specKNN t.abs 1 px py res = true := by
+  have hw : wfNode t.maxC t.height t.root = true := by
+    have := hwf; simp [C11.Tree.WF] at this; exact this.1
+  obtain ⟨st', e, p⟩ := nnNode_spec hO px py hv t.root t.height hw none
+  have e2 := knn1_eq order px py t.root t.height hw none st' e
+  refine ⟨[st'.map (·.2)], ?_, ?_⟩
+  · have : List.replicate 1 (none : Option (Rat × O)) = [none] := rfl
+    simp only [nearestNeighbors, this, e2, bind, Except.bind, pure, Except.pure, List.map_cons, List.map_nil]
+  · -- the single slot is a correct top-1
+    have htk : TopK (cdist px py) 1 t.abs st'.toList := by
+      cases st' with
+      | none =>
+        have hempty : t.abs = [] := by
+          by_contra hne
+          obtain ⟨o0, ho0⟩ := List.exists_mem_of_ne_nil _ hne
+          obtain ⟨d, o, h1, _⟩ := p.best o0 ho0
+          cases h1
+        rw [hempty]; exact TopK.nil _ 1
+      | some q =>
+        have hfrom : ∃ o1, o1 ∈ t.root.objs ∧ q = (cdist px py o1, o1) := by
+          rcases p.from_ with g | ⟨o1, ho1, g⟩
+          · cases g
+          · exact ⟨o1, ho1, Option.some.inj g⟩
+        obtain ⟨o1, ho1, rfl⟩ := hfrom
+        refine ⟨by simp, by simp, by simp [SortedD], ?_⟩
+        have hperm : (o1 :: t.abs.erase o1).Perm t.abs := (List.perm_cons_erase ho1).symm
+        refine ⟨t.abs.erase o1, by simpa using hperm, ?_, by simp⟩
+        intro r hr q hq
+        simp only [Option.toList_some, List.mem_singleton] at hq; subst hq
+        obtain ⟨d', o'', h1, h2⟩ := p.best r (List.mem_of_mem_erase hr)
+        cases h1; exact h2
+    have := specKNN_of_topk px py 1 t.abs _ htk
+    cases st' with
+    | none => simpa [pad] using this
+    | some q => simpa [pad] using this
+
+/-- **C12_knn_all** — `C12_knn` and `C12_knn_one` together: every k. -/
+theorem C12_knn_all [Bounded O] [DecidableEq O] {order : List Rat → List Nat} (hO : OrderOK order)
+    (t : C11.Tree O) (hwf : t.WF = true) (k : Nat) (px py : Rat)
+    (hv : ∀ o : O, (Bounded.bounds o).valid = true) :
+    ∃ res, nearestNeighbors order t k px py = .ok res ∧ specKNN t.abs k px py res = true := by
+  by_cases hk : k = 1
+  · subst hk; exact C12_knn_one hO t hwf px py hv
+  · exact C12_knn hO t hwf k hk px py
+
+/-! ### the executable visiting order is a permutation -/
+
+theorem takeWhile_append_drop {α : Type} (p : α → Bool) : ∀ l : List α,
+    l.takeWhile p ++ l.drop (l.takeWhile p).length = l
+  | [] => rfl
+  | a :: l => by
+    simp only [List.takeWhile_cons]
+    split
+    · simp [takeWhile_append_drop p l]
+    · simp
+
+/-- **C12_stableOrder_ok** — the model's visiting order (stable insertion sort of the indices by
+MINDIST, which is what `sort.Sort` does for at most 12 entries) is a permutation of the indices. -/
+theorem C12_stableOrder_ok : OrderOK stableOrder := by
+  intro ds
+  unfold stableOrder
+  simp only
+  have hins : ∀ (acc : List (Rat × Nat)) (x : Rat × Nat),
+      (acc.takeWhile (fun y => decide (y.1 ≤ x.1)) ++ [x] ++
+        acc.drop (acc.takeWhile (fun y => decide (y.1 ≤ x.1))).length).Perm (x :: acc) := by
+    intro acc x
+    have := takeWhile_append_drop (fun y : Rat × Nat => decide (y.1 ≤ x.1)) acc
+    conv_rhs => rw [← this]
+    simp only [List.append_assoc, List.singleton_append]
+    exact List.perm_middle
+  have hfold : ∀ (l acc : List (Rat × Nat)),
+      (l.foldl (fun acc x => acc.takeWhile (fun y => decide (y.1 ≤ x.1)) ++ [x] ++
+        acc.drop (acc.takeWhile (fun y => decide (y.1 ≤ x.1))).length) acc).Perm (l ++ acc) := by
+    intro l
+    induction l with
+    | nil => intro acc; exact List.Perm.refl _
+    | cons a l ih =>
+      intro acc
+      simp only [List.foldl_cons]
+      refine (ih _).trans ?_
+      refine (List.Perm.append_left l (hins acc a)).trans ?_
+      simpa using (List.perm_middle (a := a) (l₁ := l) (l₂ := acc))
+  have := (hfold ds.zipIdx []).map (·.2)
+  refine this.trans ?_
+  simp [List.range_eq_range']
+
+/-! ### non-vacuity -/
+
+example : OrderOK stableOrder := C12_stableOrder_ok
+example : stableOrder [3, 1, 2, 1] = [1, 3, 2, 0] := by decide +kernel
+example : minDist 0 0 ⟨1, 1, 2, 2⟩ = 2 := by decide +kernel
+example : minMaxDist 0 0 ⟨1, 1, 2, 2⟩ = 5 := by decide +kernel
 
 end GeomV.C12
